@@ -34,6 +34,7 @@
 #include "../hlim/coreNodes/Node_Rewire.h"
 #include "../hlim/coreNodes/Node_Pin.h"
 #include "../hlim/supportNodes/Node_External.h"
+#include "../hlim/supportNodes/Node_Memory.h"
 #include "../hlim/NodeVisitor.h"
 #include "../hlim/supportNodes/Node_ExportOverride.h"
 #include "../hlim/Subnet.h"
@@ -241,6 +242,10 @@ void Program::compileProgram(const hlim::Circuit &circuit, const hlim::Subnet &n
 					}
 				}
 				readyNodeInputs[i] = driver;
+				// The initialization data of a memory is not read by the simulation (it is turned into reset logic by the memory post processing).
+				// It is computed from the memory's own INITIALIZATION_ADDR output and must not count as a dependency (it would be a cycle).
+				if (dynamic_cast<hlim::Node_Memory*>(node) && i == (size_t)hlim::Node_Memory::Inputs::INITIALIZATION_DATA)
+					continue;
 				if (driver.node != nullptr && !outputsReady.contains(driver) && subnetToConsider.contains(driver.node)) {
 
 					// Allow feedback loops on external nodes
